@@ -734,7 +734,11 @@ class CollectEndToEnd(Case):
     TABLES = {
         "six": ([1.0, 20.0, 3.0, 40.0, 5.0, 60.0], [0, 10, 20, 30, 40, 50]),
         "gap": ([7.0, None, 9.0, 70.0, 2.0], [0, 10, 20, 30, 40]),
+        # NumpyStream only: the data (and the depth axis) arrive as numpy masked arrays with masked samples inside the
+        # windows - a covered row keeps its flag in the list form whatever its data look like
+        "masked": ([7.0, 8.0, 9.0, 70.0, 2.0, 3.0], [0, 10, 20, 30, 40, 50]),
     }
+    MASKS = {"masked": [False, False, True, False, False, True]}
     # None: that bound is not given (open-ended window)
     WINDOWS = {"two": [(0, 20), (30, 50)], "one-late": [(20, 45)], "touching": [(0, 30), (30, 60)], "open-ended": [(None, 20), (30, None)], "open-late-first": [(30, None), (None, 20)], "ending-only": [(None, 30)]}
 
@@ -751,6 +755,11 @@ class CollectEndToEnd(Case):
         vals, secs = self.TABLES[values["table"]]
         n = len(vals)
         v = np.array([np.nan if x is None else x for x in vals], dtype="float64")
+        vmask = self.MASKS.get(values["table"])
+        if vmask is not None:
+            if values["front"] != "numpy":
+                return None
+            v = np.ma.array(v, mask=vmask)
         t = np.array([s_ * 10**9 for s_ in secs], dtype="datetime64[ns]")
         wins = self.WINDOWS[values["windows"]]
         span = {"fail_span": [0, 50], "suspect_span": [2, 30]}
@@ -763,7 +772,8 @@ class CollectEndToEnd(Case):
             with warnings.catch_warnings():
                 warnings.simplefilter("ignore")
                 if front == "numpy":
-                    st = stm.NumpyStream(inp=v.copy(), time=t.copy(), z=np.full(n, 1.5), lat=np.full(n, 2.5), lon=np.full(n, 3.5))
+                    zax = np.full(n, 1.5) if vmask is None else np.ma.array(np.full(n, 1.5), mask=vmask[::-1])
+                    st = stm.NumpyStream(inp=v.copy(), time=t.copy(), z=zax, lat=np.full(n, 2.5), lon=np.full(n, 3.5))
                 else:
                     df = pd.DataFrame({"time": t, "v": v, "z": 1.5, "lat": 2.5, "lon": 3.5})
                     if index == "permuted":
@@ -804,6 +814,8 @@ class CollectEndToEnd(Case):
             a = np.ma.masked_array(getattr(cr, name))
             am = np.ma.getmaskarray(a)
             for i in exp:
+                if vmask is not None and name == "data" and vmask[i]:
+                    continue  # a masked sample: its collected data may stay masked
                 same = (not am[i]) and ((a.data[i] == src[i]) or (src.dtype.kind == "f" and np.isnan(src[i]) and np.isnan(a.data[i])))
                 if not same:
                     return "list form: collected %s of row %d is %s, source %s" % (name, i, "masked" if am[i] else a.data[i], src[i])
